@@ -148,6 +148,8 @@ def run_case(case, ctx):
     import pandas as pd
     from pyg_base import df_fillna, nona
     x, cols = build(case)
+    if case.get('readonly') and isinstance(x, np.ndarray):
+        x.flags.writeable = False           # an array the caller has frozen: filling never needs to write into its input
     before = x.copy()
     method = case['method']
     methods = method if isinstance(method, list) else [method]
@@ -269,6 +271,8 @@ def gen_random(rng):
     case = {'kind': kind, 'cols': cols, 'method': method, 'limit': limit, 'positional': rng.random() < 0.2}
     if intidx is not None:
         case['intidx'] = intidx
+    if kind in ('arr1', 'arr2') and rng.random() < 0.3:
+        case['readonly'] = True
     if limit is not None and rng.random() < 0.25:
         case['np_limit'] = True
     if rng.random() < 0.2:
